@@ -15,4 +15,5 @@ CONSTANTS
   AllowFlush = FALSE
   AtomicPoll = FALSE
 INVARIANTS PollOK CapacityOK TokensOK InterestsOK NoStall QuietNotReady ReleasableReady Refused503 KillWins KillReady Witnesses
+PROPERTY AbsRefines
 CHECK_DEADLOCK FALSE
